@@ -65,7 +65,10 @@ ASSUMES = [
     "(get_line_translation after get_cursor_coords for the focused view); C03 judges that layout; rows whose segment "
     "widths disagree with wcwidth are not judged",
     "up/down target = the position on the adjacent display row whose cell contains the preferred column, else the "
-    "nearest one (ties: any); offsets falling into the caption map to edit offset 0; home/end = first/last position "
+    "nearest one (ties: any); a zero-width character has no cell and is drawn at the column of the position that "
+    "follows it, so it is accepted as well as that position unless the column lies inside the cell of a "
+    "positive-width character (then only that character); on a row showing zero-width characters only every "
+    "offset of the row is accepted; offsets falling into the caption map to edit offset 0; home/end = first/last position "
     "of the display row and make the preferred column leftmost/rightmost (documented in get_pref_col)",
     "preferred column after a click: the clicked column or the landing column (either accepted); after a resize: "
     "the current column",
